@@ -128,7 +128,7 @@ class Env(object):
         return L
 
 
-UNARY = ['neg', 'ls', 'rs', 'div', 'lv', 'rv', 'vadd', 'vradd', 'vsub', 'rvsub', 'sadd', 'pow', 'ls@', 'rs@', 'lv@', 'rv@']
+UNARY = ['neg', 'ls', 'rs', 'div', 'lv', 'rv', 'vadd', 'vradd', 'vsub', 'rvsub', 'sadd', 'ssub', 'rssub', 'pow', 'ls@', 'rs@', 'lv@', 'rv@']
 BINARY = ['sum', 'sub', 'comp', 'matmul']
 COMBINATORS = UNARY + BINARY
 
@@ -204,6 +204,14 @@ def build(env, kind, a, b=None, scls='gen'):
     if kind == 'sadd':
         s = env.scalar(scls if scls != 'cplx' or env.cplx else 'gen')
         return (op + s, lambda x: ref(x) + s, False, '(%s + %r)' % (txt, s), dom, ran)
+    if kind in ('ssub', 'rssub'):
+        # scalar subtraction on either side (the reference converts the scalar to a Python number first: unsigned and
+        # fixed-width NumPy scalars must mean their mathematical value)
+        s = env.scalar(scls if scls != 'cplx' or env.cplx else 'gen')
+        sv = complex(s) if isinstance(s, (complex, np.complexfloating)) else float(s)
+        if kind == 'ssub':
+            return (op - s, lambda x: ref(x) - sv, False, '(%s - %r)' % (txt, s), dom, ran)
+        return (s - op, lambda x: sv - ref(x), False, '(%r - %s)' % (s, txt), dom, ran)
     if kind == 'pow':
         if dom != ran:
             raise Skip()
@@ -338,7 +346,7 @@ def run_depth2(ctx):
                         'functional': [l for l in leaves if util.is_field(l[4])]}[linearity]
                 if not pool:
                     continue
-                scalar_kinds = env.scalar_classes() if (outer in ('ls', 'rs', 'div', 'sadd') or inner in ('ls', 'rs', 'div', 'sadd')) else ['gen']
+                scalar_kinds = env.scalar_classes() if (outer in ('ls', 'rs', 'div', 'sadd', 'ssub', 'rssub') or inner in ('ls', 'rs', 'div', 'sadd', 'ssub', 'rssub')) else ['gen']
                 for scls in scalar_kinds:
                     idx += 1
                     if not ctx.mine(idx):
@@ -677,6 +685,43 @@ def run_functional_across_fields(ctx):
             ctx.violation('FunctionalComp', cfg, 'raises:' + type(e).__name__, expr=name, message=str(e)[:200])
 
 
+def run_curve_times_functional(ctx):
+    """op * functional with an operator whose domain is the field (a curve t -> t*y): (C * f)(x) = C(f(x)) maps the space into
+    itself.  When both factors are expression objects of related classes (2*C and 3*f, C+C2 and f+g, ...) Python tries the
+    reflected overload of the right operand first - the composition order must still be that of the expression."""
+    rng = ctx.rng('curve-times-functional')
+    sp = odl.rn(3)
+    y, y2, v = sp.element(rng.normal(size=3)), sp.element(rng.normal(size=3)), sp.element(rng.normal(size=3))
+    ya, y2a, va = np.asarray(y), np.asarray(y2), np.asarray(v)
+    C = odl.MultiplyOperator(y, domain=sp.field)        # t -> t * y
+    C2 = odl.MultiplyOperator(y2, domain=sp.field)
+    f, g = S.L2NormSquared(sp), S.L1Norm(sp)
+    fr = lambda a: float(np.sum(a ** 2))
+    gr = lambda a: float(np.sum(np.abs(a)))
+    M = odl.MatrixOperator(rng.normal(size=(3, 3)), sp, sp)
+    Ma = M.matrix
+    cases = [('C*f', lambda: C * f, lambda a: fr(a) * ya), ('(2*C)*f', lambda: (2 * C) * f, lambda a: 2 * fr(a) * ya), ('C*(3*f)', lambda: C * (3 * f), lambda a: 3 * fr(a) * ya),
+             ('(2*C)*(3*f)', lambda: (2 * C) * (3 * f), lambda a: 2 * 3 * fr(a) * ya), ('(C*2.0)*(f*0.5)', lambda: (C * 2.0) * (f * 0.5), lambda a: 2.0 * fr(0.5 * a) * ya),
+             ('(C+C2)*(f+g)', lambda: (C + C2) * (f + g), lambda a: (fr(a) + gr(a)) * (ya + y2a)), ('(C*2.0)*(f*M)', lambda: (C * 2.0) * (f * M), lambda a: 2.0 * fr(Ma @ a) * ya),
+             ('(-C)*(-f)', lambda: (-C) * (-f), lambda a: fr(a) * ya), ('(C+v)*(f+1.5)', lambda: (C + v) * (f + 1.5), lambda a: (fr(a) + 1.5) * ya + va)]
+    for name, mk, ref in cases:
+        ctx.ev('reference-interpreter')
+        ctx.case('curve-times-functional;' + name, 0)
+        cfg = 'operator-with-field-domain o functional'
+        try:
+            W = mk()
+            x = sp.element(rng.normal(size=3))
+            if W.domain != sp or W.range != sp:
+                ctx.violation('OperatorComp', cfg, 'domain/range', expr=name, got=(util.srepr(W.domain, 40), util.srepr(W.range, 40)))
+                continue
+            got = np.asarray(W(x))
+            want = ref(np.asarray(x))
+            if not np.allclose(got, want, rtol=1e-12, atol=1e-12):
+                ctx.violation('OperatorComp', cfg, 'value', expr=name, got=got, ref=want)
+        except Exception as e:
+            ctx.violation('OperatorComp', cfg, 'raises:' + type(e).__name__, expr=name, message=str(e)[:200])
+
+
 def run(ctx):
     ctx.note('rule', 'one case = one expression tree (text form is the key); depth-2 trees: every ordered pair of the %d '
                      'combinators x {linear, nonlinear, functional} leaves x {R, C} x scalar classes; deeper trees seeded; '
@@ -701,6 +746,7 @@ def run(ctx):
         run_scalar_kinds(ctx)
         run_functional_overloads(ctx)
         run_functional_across_fields(ctx)
+        run_curve_times_functional(ctx)
     cov.disarm()
     n_exec, n_hit, unreached = cov.report()
     ctx.note('line_coverage', {'executable': n_exec, 'hit': n_hit})
